@@ -16,7 +16,7 @@ from engines.x86sym import orcentry
 from engines.x86sym.machine import byte_name
 from engines import oracle as oracle_mod
 
-ENGINE_VERSION = 'x86check-9'
+ENGINE_VERSION = 'x86check-10'
 CALLEE_SAVED = ('rbx', 'rbp', 'r12', 'r13', 'r14', 'r15')
 
 SSE_BITS = {'sse2': 1, 'sse3': 2, 'ssse3': 4, 'sse4.1': 8, 'sse4.2': 16, 'avx': 1 << 10, 'avx2': 1 << 11}
@@ -479,6 +479,9 @@ def check_program(prog, target, optable, sem, n_max=None, m_max=2, query_timeout
                     if p['index'] == i['s'][1]:
                         solver.add(z3.ULT(p['lo'], w))
                         param_asm.append(z3.ULT(p['lo'], w))
+                        if p.get('hi') is not None:          # a 64-bit parameter as shift count: the whole value is the count
+                            solver.add(p['hi'] == 0)
+                            param_asm.append(p['hi'] == 0)
                         shift_params.add(nm)
         if constrain:
             constrain(es, solver)
